@@ -195,6 +195,9 @@ func (c *Case) coq() string {
 	if c.Mode == "perm" {
 		mode = "UpToPerm"
 	}
+	if c.Mode == "kind" {
+		mode = "KindOnly"
+	}
 	docS := "jNull"
 	if c.Kind == "search" || c.Kind == "tree" {
 		s, ok := coqValue(c.Doc)
